@@ -11,7 +11,7 @@ namespace Naga.Tie.C16
 open Naga.Codes
 
 theorem hlsl_spec_covered :
-    subsetOr lastIsDigit 1000 Spec.Keywords.hlsl Gen.Keywords.hlslSensitive = true := by decide +kernel
+    subsetOr lastIsDigit 4000 Spec.Keywords.hlsl Gen.Keywords.hlslSensitive = true := by decide +kernel
 theorem msl_spec_covered :
     subsetOr lastIsDigit 1000 Spec.Keywords.msl Gen.Keywords.msl = true := by decide +kernel
 theorem glsl_spec_covered :
